@@ -184,7 +184,9 @@ pub fn random_spec(rng: &mut Rng, b: &SpecBounds) -> Spec {
                 (p, d + 1)
             }
         };
-        if b.global_masters && parent.is_some() && rng.chance(1, 5) {
+        // masters with a placeholder at the end of their path; now and then the placeholder is the whole path (a master
+        // that may appear anywhere, the top level included when its minimum is 0)
+        if b.global_masters && ((parent.is_some() && rng.chance(1, 5)) || (parent.is_none() && k > 0 && rng.chance(1, 6))) {
             path.push(random_glob(rng));
         }
         masters.push((elems.len(), depth));
@@ -225,6 +227,44 @@ pub fn z_recursive() -> Spec {
     ];
     e.extend(globals());
     Spec { name: "Z_RECURSIVE".into(), elems: e }
+}
+
+/// Scale documents: far more siblings under one master, or far deeper same-id nesting, than the random tree
+/// generator ever produces (its documents have up to ~150 elements and depth <= 6). Sizes straddle 255/256/257 and
+/// 511/512/513 (counter widths, queue growth steps) and go up to a few thousand.
+pub fn gen_scale_tree(rng: &mut Rng, allow_recursive: bool) -> (Spec, Vec<Node>, &'static str) {
+    if allow_recursive && rng.chance(1, 2) {
+        let d = *rng.pick(&[100usize, 254, 255, 256, 257, 258, 400, 700]);
+        let with_leaves = rng.chance(1, 2);
+        let mut node = Node::master(0xA0, vec![Node::leaf(Item::U(0xD7, 7))]);
+        for i in 1..d {
+            let mut ch = vec![node];
+            if with_leaves && i % 3 == 0 {
+                ch.push(Node::leaf(Item::U(0xD7, i as u64)));
+            }
+            node = Node::master(0xA0, ch);
+        }
+        let tree = vec![Node::master(0x1A45DFA3, vec![node, Node::master(0xAE, vec![Node::leaf(Item::U(0xB0, 3))])])];
+        return (z_recursive(), tree, "deep");
+    }
+    let n = *rng.pick(&[254usize, 255, 256, 257, 258, 300, 511, 512, 513, 1000, 2500]);
+    let mut ch = Vec::with_capacity(n);
+    for i in 0..n {
+        if rng.chance(1, 10) {
+            let len = rng.urange(0, 6);
+            ch.push(Node::leaf(Item::B(0xa1, rng.bytes(len))));
+        } else {
+            ch.push(Node::leaf(Item::U(0x4100, i as u64)));
+        }
+    }
+    let mut seg = vec![Node::master(0x1F43B675, ch)];
+    if rng.chance(2, 3) {
+        seg.push(Node::leaf(Item::U(0x83, 1)));
+    }
+    if rng.chance(1, 2) {
+        seg.push(Node::master(0x1F43B675, vec![Node::leaf(Item::U(0x4100, 2))]));
+    }
+    (z_test(), vec![Node::master(0x18538067, seg)], "wide")
 }
 
 pub fn pick_spec(rng: &mut Rng, b: &SpecBounds) -> Spec {
@@ -464,8 +504,8 @@ pub fn fix_widths(nodes: &mut [Node]) {
 }
 
 /// Demote Unknown where reading would be inherently ambiguous or undefined:
-/// global masters, and masters whose following element (after closing through unknown-size ancestors)
-/// is a global element.
+/// masters whose following element (after closing through unknown-size ancestors) is a global element, and masters
+/// with a placeholder in their own declared path unless what follows is nothing, a root element or a declared ancestor.
 pub fn fix_unknown(spec: &Spec, nodes: &mut [Node]) {
     // iterate to a fixpoint because demoting an ancestor changes what "follows" means for descendants
     loop {
@@ -475,6 +515,15 @@ pub fn fix_unknown(spec: &Spec, nodes: &mut [Node]) {
             break;
         }
     }
+}
+
+/// Does some element that the reader meets while `w` (unknown size) is still open — its children, and the children of
+/// unknown-size masters below it — look like a sibling of `w` (same declared path) or like one of its declared ancestors?
+fn reaches_closer(spec: &Spec, w: &Elem, children: &[Node]) -> bool {
+    children.iter().any(|ch| {
+        let looks = spec.get(ch.id()).map(|ce| ce.path == w.path || w.path.iter().any(|p| matches!(p, PP::Id(i) if *i == ce.id))).unwrap_or(true);
+        looks || (ch.is_master() && ch.opt == SizeOpt::Unknown && reaches_closer(spec, w, &ch.children))
+    })
 }
 
 /// `follow`: id of the element that follows this list of siblings if the enclosing masters are unknown-size
@@ -488,9 +537,21 @@ fn fix_unknown_level(spec: &Spec, nodes: &mut [Node], follow: Option<u64>, chang
             continue;
         }
         if node.opt == SizeOpt::Unknown {
-            let glob_master = spec.get(node.id()).map(|e| e.is_global()).unwrap_or(true);
+            let me = spec.get(node.id());
+            let glob_master = me.map(|e| e.is_global()).unwrap_or(true);
             let next_glob = next_here.map(|x| spec.get(x).map(|e| e.is_global()).unwrap_or(true)).unwrap_or(false);
-            if glob_master || next_glob {
+            // a master with a placeholder in its declared path may keep its unknown size only where what follows ends it
+            // under every reading of "sibling / ancestor / root": nothing (end of input, known-size boundary), a root
+            // element, or a master that its declared path names as an ancestor
+            let glob_ok = match (me, next_here) {
+                (Some(_), None) => true,
+                (Some(e), Some(x)) => spec.get(x).map(|nx| nx.is_root()).unwrap_or(false) || e.path.iter().any(|p| matches!(p, PP::Id(i) if *i == x)),
+                _ => false,
+            };
+            // ... and none of its own children may look like its sibling (same declared path, e.g. the master nested in
+            // itself) or like one of its declared ancestors: such a child would end it
+            let child_ends_it = glob_master && me.map(|e| reaches_closer(spec, e, &node.children)).unwrap_or(true);
+            if (glob_master && (!glob_ok || child_ends_it)) || next_glob {
                 node.opt = SizeOpt::Default;
                 *changed = true;
             }
